@@ -330,14 +330,22 @@ func minimise(t *testing.T, prop *Property, res *RunResult, budget time.Duration
 
 	for pass := 0; pass < 6 && time.Now().Before(deadline); pass++ {
 		improved := false
-		// 1. program: drop tasks, ops, simplify configuration and values
-		for _, cand := range programCandidates(bestProg) {
-			if !time.Now().Before(deadline) {
-				break
+		// 1. program: drop tasks, ops, simplify configuration and values; after every
+		// accepted reduction the candidates are derived afresh from the new best
+		for time.Now().Before(deadline) {
+			progress := false
+			for _, cand := range programCandidates(bestProg) {
+				if !time.Now().Before(deadline) {
+					break
+				}
+				if r := trySearch(cand, bestTape, 8); r != nil {
+					accept(cand, r)
+					improved, progress = true, true
+					break
+				}
 			}
-			if r := trySearch(cand, bestTape, 12); r != nil {
-				accept(cand, r)
-				improved = true
+			if !progress {
+				break
 			}
 		}
 		// 2. tape: truncate, zero blocks, delete blocks
